@@ -106,7 +106,18 @@ func (t *Teamserver) AgentHasDied(Agent *agent.Agent) bool {
 }
 
 func (t *Teamserver) AgentAdd(Agent *agent.Agent) []*agent.Agent {
+	// check-and-add in one step: two requests registering the same agent id
+	// concurrently must not end up as two sessions
+	t.AgentsMtx.Lock()
+	defer t.AgentsMtx.Unlock()
+
 	if Agent != nil {
+		for _, demon := range t.Agents.Agents {
+			if demon.NameID == Agent.NameID {
+				return t.Agents.Agents
+			}
+		}
+
 		if t.WebHooks != nil {
 			t.WebHooks.NewAgent(Agent.ToMap())
 		}
